@@ -421,3 +421,93 @@ fn sim_pending_at_call_empty(case: &FCase, _m: &Model) -> bool {
   s.call();
   s.pending.is_empty()
 }
+
+
+// ----------------------------------------------------------------------------
+// two application threads waiting on one DataWriter at the same time
+// ----------------------------------------------------------------------------
+
+pub struct TwoOutcome {
+  pub both_said_no: bool,
+  pub acked_in_time: bool,
+}
+
+/// One reliable reader that has acknowledged only a prefix (or nothing) of what was written; thread A calls
+/// wait_for_acknowledgments, the Writer takes the command, thread B calls it too (the Writer has one waiter slot, so
+/// B's command replaces A's), nothing further is acknowledged (or everything is, shortly before the timeouts).
+/// Whatever the implementation does with the displaced waiter, neither call may report success while the reader
+/// has not acknowledged everything written before that call.
+pub fn run_two_waiters(rng: &mut Rng, acc: &mut Acc, tag: &Value) -> TwoOutcome {
+  let mut wb = WriterBench::new(WbCfg { reliable: true, history: 0, transient_local: false, frag_size: 0, writer_key: [0, 0, 0x42] });
+  let nwrites = 1 + rng.below(5) as i64;
+  let acked_prefix = rng.below(nwrites as u64) as i64; // 0..nwrites-1 samples acknowledged before the calls
+  let late_ack = rng.chance(1, 3);
+  let gap_ms = rng.below(30);
+  let replay = || json!({"case": tag, "writes": nwrites, "acknowledged_before_the_calls": acked_prefix, "everything_acknowledged_later": late_ack});
+  let mut out = TwoOutcome { both_said_no: false, acked_in_time: false };
+  wb.match_reader(reader_guid(0), true, format!("127.0.0.1:{}", reader_port(0)).parse().unwrap());
+  for k in 0..nwrites {
+    let _ = wb.write(VSample { key: 1, id: 100 + k as u32, blob: vec![7] }, None, None);
+  }
+  let g = reader_guid(0);
+  let prefix: [u8; 12] = g[0..12].try_into().unwrap();
+  let reid: [u8; 4] = g[12..16].try_into().unwrap();
+  let mut count = 0;
+  let mut ack = |wb: &mut WriterBench, base: i64| {
+    let mut dg = wire::header(&prefix);
+    wire::info_dst(&mut dg, true, &wb.own_prefix);
+    count += 1;
+    wire::acknack(&mut dg, true, reid, wb.writer_entity_id(), base, 0, &[], count, true);
+    wb.inject(&dg);
+  };
+  ack(&mut wb, acked_prefix + 1);
+  let timeout_ms = 160u64;
+  wb.sync_wait_spawn(timeout_ms);
+  let t0 = Instant::now();
+  while t0.elapsed() < Duration::from_millis(500) {
+    wb.process_commands();
+    if wb.has_ack_waiter() || wb.sync_wait_finished() {
+      break;
+    }
+    std::thread::sleep(Duration::from_micros(200));
+  }
+  std::thread::sleep(Duration::from_millis(gap_ms));
+  wb.sync_wait2_spawn(timeout_ms);
+  // the Writer picks up the second command; keep serving its queue while both threads wait
+  let t1 = Instant::now();
+  let mut acked_at: Option<f64> = None;
+  while t1.elapsed() < Duration::from_millis(timeout_ms + 200) {
+    wb.process_commands();
+    if late_ack && acked_at.is_none() && t1.elapsed() > Duration::from_millis(60) {
+      ack(&mut wb, nwrites + 1);
+      acked_at = Some(t0.elapsed().as_secs_f64());
+      out.acked_in_time = true;
+    }
+    if wb.sync_wait_finished() && t1.elapsed() > Duration::from_millis(timeout_ms + 40) {
+      break;
+    }
+    std::thread::sleep(Duration::from_micros(300));
+  }
+  let ra = wb.sync_wait_join();
+  let rb = wb.sync_wait2_join();
+  let mut nos = 0;
+  for (who, r) in [("first", ra), ("second", rb)] {
+    match r {
+      Some((Ok(true), el)) => {
+        // success is legitimate only after everything was acknowledged
+        if acked_at.is_none() {
+          acc.violate(
+            format!("C20/no-false-yes:sync-success-while-a-matched-reliable-reader-has-not-acknowledged:two-concurrent-waits:{who}-caller"),
+            json!({"caller": who, "elapsed_s": el, "written": nwrites, "acknowledged": acked_prefix}),
+            replay(),
+          );
+        }
+      }
+      Some((Ok(false), _)) => nos += 1,
+      Some((Err(e), _)) => acc.violate("C20/error:sync-wait-failed:two-concurrent-waits", json!({"caller": who, "err": e}), replay()),
+      None => {}
+    }
+  }
+  out.both_said_no = nos == 2;
+  out
+}
